@@ -82,7 +82,7 @@ CHECKS = {
         "units": [
             unit("c16-stop", "gabikeys", ["zz_verif_c16_stop_test.go"], "^TestVerifC16Stop$", shards={"quick": 16, "thorough": 16},
                  instr=["safeprime/safeprime.go", "gabikeys/keys.go"]),
-            unit("c16-gen", "gabikeys", ["zz_verif_c16_gen_test.go", "zz_verif_c16_stop_test.go"], "^TestVerifC16(Filter|Generator)$", shards={"quick": 12, "thorough": 16}),
+            unit("c16-gen", "gabikeys", ["zz_verif_c16_gen_test.go", "zz_verif_c16_stop_test.go"], "^TestVerifC16(Filter|Generator|Lengths)$", shards={"quick": 12, "thorough": 16}),
         ],
         "assumptions": [],
     },
